@@ -3,6 +3,8 @@
          -> "I <r> S <r>"   r = "OK w h <fnv1a64 of the RGBA bytes>" | "ERR"
             (stream-level cases have no separate implementation model: both
              fields are the specification decoder's result)
+     wf <plan>
+         -> "W 1" | "W 0"    the boolean well-formedness checker (sound for the hypothesis of emit_decode)
      trace <hex>
          -> "T w h alpha cache meta_bits ngroups t:<type>/<bits>,... " | "ERR"   *)
 open Zutil
@@ -96,6 +98,9 @@ let () = iter_lines (fun line ->
   | "emit" :: toks ->
     (try Printf.printf "H %s\n" (hex_of_bytes (Stdlib.List.map int_of_z (Vp8lEmit.emit (parse_plan toks))))
      with Bad_plan m -> Printf.printf "ERR bad-plan %s\n" m)
+  | "wf" :: toks ->
+    (try Printf.printf "W %d\n" (if Vp8lWf.wf_planb (parse_plan toks) then 1 else 0)
+     with Bad_plan m -> Printf.printf "ERR bad-plan %s\n" m)
   | "plan" :: _tag :: toks ->
     (try
        let p = parse_plan toks in
@@ -155,6 +160,17 @@ let () = iter_lines (fun line ->
      | Res.Ok im -> Printf.printf "P %d %d %s\n" (int_of_z im.Vp8lSpec.i_w) (int_of_z im.Vp8lSpec.i_h) (hex_px im.Vp8lSpec.i_px)
      | Res.Err e -> Printf.printf "ERR %d\n" (int_of_nat e)
      | Res.Panic -> print_endline "PANIC")
+  | ["replan"; hex] ->
+    (* recover the plan the stream is the emission of; check it against the proved theorem's hypothesis *)
+    let bytes = zbytes_of_hex hex in
+    (match Vp8lTrace.trace_decode bytes with
+     | Res.Ok p ->
+       let wf = Vp8lWf.wf_planb p in
+       let same = Vp8lTrace.prefix_then_zeros (Vp8lEmit.emit p) bytes in
+       let sm = Vp8lEmit.sem p in
+       Printf.printf "R wf=%d emit=%d OK %d %d %s\n" (if wf then 1 else 0) (if same then 1 else 0)
+         (int_of_z sm.Vp8lSpec.i_w) (int_of_z sm.Vp8lSpec.i_h) (fnv_px sm.Vp8lSpec.i_px)
+     | _ -> print_endline "R ERR")
   | ["trace"; hex] ->
     (match Vp8lSpec.decode_header (zbytes_of_hex hex) with
      | Res.Ok d ->
